@@ -102,7 +102,57 @@ SHAPES = [
     'contains("@P1") and regex("B$") and amount > 9001',
     'any(r.missing == "x" for r in orders) or contains("@P1")',
     'min(amount, 9001) == max(9002, amount)',
+    # a later `for` clause whose iterable depends on an earlier loop variable (spelled with capitals) or on a name bound by := in an earlier `if`
+    'len([s.amount for R in orders for s in [t for t in orders if t.amount >= R.amount]]) == 9001',
+    'sum(s.amount for Row in orders for s in [t for t in orders if t.amount > Row.amount]) > 9001',
+    '[q.item for r in orders for q in [t for t in orders if t.amount == r.amount]][0] == "@P1"',
+    'any(s.item == "@P1" for Row in orders if (lim := Row.amount) > 9001 for s in [t for t in orders if t.amount >= lim])',
 ]
+
+# ------------------------------------------------------------------ an evaluation that FAILED must not influence the next one
+FAIL_PAIRS = [
+    ('(month := 99) and field.nope == "x"', 'month == 9001', None),
+    ('(total := 72) > 0 and amount > "x"', 'total > 9001', {'total': 500}),
+    ('any((zz := r.amount) > 0 and r.nope == 1 for r in orders)', 'zz == 9001 or contains("@P1")', None),
+    ('len([r for r in orders if r.amount >= 0 and r.nope == 1]) > 0', 'r == 1 or contains("@P1")', None),
+    ('(description := "hijack") != "" and amount > "x"', 'contains("@P1")', None),
+]
+
+
+def after_failure(i, dlen=2, slen=1):
+    first, second, variables = FAIL_PAIRS[i]
+    global DLEN, SLEN
+    DLEN, SLEN = dlen, slen
+
+    def ob(desc: str, amount: int, s1: str, n1: int, m: int) -> bool:
+        """
+        pre: len(desc) <= DLEN and len(s1) <= SLEN and 1 <= m <= 12
+        post: _
+        """
+        from datetime import date
+        from tally import expr_parser
+        from harness import ref
+        reset_tally_caches()
+        txn = {'description': desc, 'amount': amount, 'field': {'k': 'kv'}, 'source': 'S', 'date': date(2024, m, 14)}
+        rows = {'orders': [{'amount': 5, 'item': 'x'}, {'amount': 9, 'item': 'zz'}]}
+        values = {'@P1': s1, 9001: n1}
+        try:
+            expr_parser.evaluate_transaction(first, dict(txn), data_sources=rows)
+            failed = False
+        except expr_parser.ExpressionError:
+            failed = True
+        inject(second, values)
+        try:
+            got = ('ok', expr_parser.evaluate_transaction(second, dict(txn), variables=dict(variables) if variables else None, data_sources=rows))
+        except expr_parser.ExpressionError:
+            got = ('err', None)
+        try:
+            exp = ('ok', ref.ref_eval_src(second, dict(txn), variables=dict(variables) if variables else None, data_sources=rows, values=values))
+        except ref.RefError:
+            exp = ('err', None)
+        return post(failed and got == exp)
+    return ob
+
 
 # ------------------------------------------------------------------ generator (thorough tier)
 BOOL_ATOMS = ['contains("@P1")', 'startswith("@P2")', 'amount > 9001', 'amount <= 9002', 'description == "@P1"',
@@ -290,6 +340,9 @@ def obligations(tier, seed):
     for (name, l, r) in LAWS:
         obs.append(Obligation(id=f'law-{name}', factory='law', params={'name': name, 'left': l, 'right': r, 'dlen': dl, 'slen': sl}, timeout=to,
                               group='metamorphic laws', bounds=f'{l!r} vs {r!r}; same bounds'))
+    for i in range(len(FAIL_PAIRS)):
+        obs.append(Obligation(id=f'after-failure-{i}', factory='after_failure', params={'i': i, 'dlen': dl, 'slen': sl}, timeout=to, group='agreement with the reference interpreter',
+                              bounds=f'{FAIL_PAIRS[i][1]!r} evaluated right after {FAIL_PAIRS[i][0]!r} failed; description <= {dl}, constant <= {sl}, integer leaves, month symbolic'))
     for i, sh in enumerate(CASE_SHAPES):
         obs.append(Obligation(id=f'case-{i}', factory='law', params={'name': 'text-case', 'left': sh, 'right': sh, 'flip_text': True, 'dlen': dl, 'slen': sl},
                               timeout=to, group='metamorphic laws', bounds=f'{sh!r} on text vs the same text with every ASCII letter case-swapped'))
